@@ -5,8 +5,8 @@
     golang/geo, tied to the Go code by the correspondence on every run); [s2_minInt]/[s2_maxInt]
     are translated from /repo on every run. *)
 From Coq Require Import ZArith List Bool.
-From Geo Require Import Base.GoPrim Gen.C06Util Model.Shapes Model.Index
-  Proofs.C06_Slices Proofs.C06_Prefix Proofs.C06_Shapes Proofs.C06_Polygons Proofs.C06_Index.
+From Geo Require Import Base.GoPrim Gen.CellID Gen.CellIDCov Model.Shapes Model.Index
+  Proofs.C06_Slices Proofs.C06_Prefix Proofs.C06_Shapes Proofs.C06_Polygons Proofs.C06_Index Proofs.C06_IndexOk Proofs.C06_CellRel Proofs.C06_Descent.
 Import ListNotations.
 Local Open Scope Z_scope.
 
@@ -181,3 +181,92 @@ Theorem clip_parity_from_edges :
   parity_crossings point crossing_sign vertex_crossing a b (edges_of point s ids).
 Proof. exact Proofs.C06_Index.clip_parity_from_edges. Qed.
 Print Assumptions clip_parity_from_edges.
+
+(** * Per-instance validation: the structural part of [index_ok] is DECIDED by [index_okb] on every
+      (small) index the observer dumps; a validated index satisfies the premise [cells_ok] of the
+      location theorems and the edge-list clause of [index_ok]. Cell validity and ranges are the
+      translated s2.CellID.IsValid / RangeMin / RangeMax. *)
+Theorem index_okb_reflects : forall numEdges idx,
+  index_okb numEdges idx = true -> index_ok_struct numEdges idx.
+Proof. exact index_okb_sound. Qed.
+Print Assumptions index_okb_reflects.
+
+Theorem validated_index_cells_ok : forall numEdges idx,
+  index_ok_struct numEdges idx -> cells_ok (cell_ids idx).
+Proof. exact index_ok_struct_cells_ok. Qed.
+Print Assumptions validated_index_cells_ok.
+
+(** * Loop/Polygon.ContainsCell and IntersectsCell through the index (Model/Index.v
+      [contains_cell]/[intersects_cell]: LocateCellID relation, boundaryApproxIntersects,
+      iteratorContainsPoint at the cell centre), one-sided safety against brute force:
+      ContainsCell = true  ==> no edge meets the cell and the centre is inside;
+      IntersectsCell = false ==> no edge meets the cell and the centre is outside.
+      [meets] is the exact "edge meets cell" relation, [approx_meets] the padded clipping test. *)
+Theorem contains_cell_one_sided :
+  forall (point : Type) (crossing_sign : point -> point -> point -> point -> crossing)
+         (vertex_crossing : point -> point -> point -> point -> bool) (cell_center : Z -> point)
+         (leaf_of_point : point -> Z) (approx_meets : point * point -> Z -> bool)
+         (s : qshape point) (ref : point) (ref_inside : bool) (meets : point * point -> Z -> Prop) (idx : index),
+  q_dim s = 2 ->
+  index_ok point crossing_sign vertex_crossing cell_center [s] (fun _ => ref) (fun _ => ref_inside) idx ->
+  H_JORDAN point crossing_sign vertex_crossing [s] (fun _ => ref) ->
+  H_CLIP point crossing_sign vertex_crossing cell_center leaf_of_point [s] idx ->
+  H_CENTER_LEAF cell_center leaf_of_point -> H_CLIP_APPROX approx_meets s meets -> H_COMPLETE_NESTED s meets idx ->
+  forall T, 0 < T ->
+  contains_cell point crossing_sign vertex_crossing cell_center approx_meets s idx T = Some true ->
+  (forall e, In e (q_edges s) -> ~ meets e T) /\
+  brute_contains point crossing_sign vertex_crossing s ref ref_inside (cell_center T) = true.
+Proof. exact Proofs.C06_CellRel.contains_cell_one_sided. Qed.
+Print Assumptions contains_cell_one_sided.
+
+Theorem intersects_cell_one_sided :
+  forall (point : Type) (crossing_sign : point -> point -> point -> point -> crossing)
+         (vertex_crossing : point -> point -> point -> point -> bool) (cell_center : Z -> point)
+         (leaf_of_point : point -> Z) (approx_meets : point * point -> Z -> bool)
+         (s : qshape point) (ref : point) (ref_inside : bool) (meets : point * point -> Z -> Prop) (idx : index),
+  q_dim s = 2 ->
+  index_ok point crossing_sign vertex_crossing cell_center [s] (fun _ => ref) (fun _ => ref_inside) idx ->
+  H_JORDAN point crossing_sign vertex_crossing [s] (fun _ => ref) ->
+  H_CLIP point crossing_sign vertex_crossing cell_center leaf_of_point [s] idx ->
+  H_COVER point crossing_sign vertex_crossing leaf_of_point [s] (fun _ => ref) (fun _ => ref_inside) idx ->
+  H_CENTER_LEAF cell_center leaf_of_point -> H_CLIP_APPROX approx_meets s meets -> H_COMPLETE_NESTED s meets idx ->
+  H_COVER_CELL s meets idx ->
+  forall T, 0 < T ->
+  intersects_cell point crossing_sign vertex_crossing cell_center approx_meets s idx T = Some false ->
+  (forall e, In e (q_edges s) -> ~ meets e T) /\
+  brute_contains point crossing_sign vertex_crossing s ref ref_inside (cell_center T) = false.
+Proof. exact Proofs.C06_CellRel.intersects_cell_one_sided. Qed.
+Print Assumptions intersects_cell_one_sided.
+
+(** neither dereferences a nil entry on a structurally valid single-shape index *)
+Theorem cell_relations_total :
+  forall (point : Type) crossing_sign vertex_crossing cell_center approx_meets
+         (s : qshape point) (n : Z) (idx : index) (T : Z),
+  index_ok_struct [n] idx -> 0 < T ->
+  contains_cell point crossing_sign vertex_crossing cell_center approx_meets s idx T <> None /\
+  intersects_cell point crossing_sign vertex_crossing cell_center approx_meets s idx T <> None.
+Proof. exact Proofs.C06_CellRel.cell_relations_total. Qed.
+Print Assumptions cell_relations_total.
+
+(** * CrossingEdgeQuery.getCellsForEdge (Model/Index.v [cells_for_edge]: LocateCellID of the edge
+      root, computeCellsIntersected, clipVAxis, with the float clipping abstract): the visited cells
+      contain every index cell whose unpadded square the query edge meets, for any clipping that is
+      sound in the sense of [descent_sound] (H-CLIP for the query edge: a skipped child is not met,
+      bounds handed down stay correct). Tree facts from C11 (children tile the parent, laminarity). *)
+Theorem visited_cells_complete :
+  forall (B : Type) (left_only right_only lower_only upper_only : Z -> B -> bool)
+         (split_u split_v : Z -> B -> B * B) (child_ij : Z -> Z -> Z -> Z) (cells : list Z)
+         (meets : Z -> Prop) (I : Z -> B -> Prop) (Iu : Z -> Z -> B -> Prop),
+  descent_sound B left_only right_only lower_only upper_only split_u split_v child_ij meets I Iu ->
+  (forall c k, C11_Bits.valid c -> In k (s2_CellID_Children c) ->
+     exists i j, (i = 0 \/ i = 1) /\ (j = 0 \/ j = 1) /\ k = child_ij c i j) ->
+  (forall x d, C11_Bits.valid x -> C11_Bits.valid d -> C11_Cells.nested_in x d -> meets x -> meets d) ->
+  (forall k, 0 <= k < lenZ cells -> C11_Bits.valid (nthZ cells k 0)) ->
+  cells_ok cells ->
+  forall (segments : list (Z * B)) (k : Z),
+  0 <= k < lenZ cells -> meets (nthZ cells k 0) ->
+  (exists root b sr, In (root, b) segments /\ C11_Bits.cellform root sr /\ I root b /\
+     (C11_Cells.nested_in (nthZ cells k 0) root \/ C11_Cells.nested_in root (nthZ cells k 0))) ->
+  In k (cells_for_edge B left_only right_only lower_only upper_only split_u split_v child_ij cells segments).
+Proof. exact Proofs.C06_Descent.edge_complete. Qed.
+Print Assumptions visited_cells_complete.
